@@ -59,7 +59,8 @@ def build_many(pairs, flags=(), tag=""):
 # ---------------------------------------------------------------- scripts
 class ScriptGen:
     """seeded random walks over the API of a definition"""
-    def __init__(self, d, seed, throws=0.15, subs=0.25, enq=0.1, drain=0.1, restart=0.05, maxcalls=7, maxplan=12, startsubs=0.1):
+    def __init__(self, d, seed, throws=0.15, subs=0.25, enq=0.1, drain=0.1, restart=0.05, maxcalls=7, maxplan=12, startsubs=0.1, copy=0.0, ninst=1):
+        self.copy = copy; self.ninst = ninst
         self.d = d; self.rnd = random.Random(seed); self.throws = throws; self.subs = subs; self.enq = enq
         self.drain = drain; self.restart = restart; self.maxcalls = maxcalls; self.maxplan = maxplan; self.startsubs = startsubs
         self.p = 0
@@ -95,19 +96,24 @@ class ScriptGen:
     def execution(self):
         self.sticky = {g: self.rnd.choice("01") for g in self.d.sticky}
         L = ["reset", "start 0 %s %s" % (self.gv(), self.plan(False, self.startsubs))]
-        running = True
+        running = {0: True}          # live instances -> started?
         for _ in range(self.rnd.randint(1, self.maxcalls)):
+            i = self.rnd.choice(sorted(running))
             r = self.rnd.random()
-            if not running:
-                L.append("start 0 %s %s" % (self.gv(), self.plan(False, self.startsubs))); running = True; continue
+            if not running[i]:
+                L.append("start %d %s %s" % (i, self.gv(), self.plan(False, self.startsubs))); running[i] = True; continue
+            if self.copy and r < self.copy and self.ninst > 1:
+                j = self.rnd.choice([k for k in range(self.ninst) if k != i])
+                L.append("%s %d %d" % (self.rnd.choice(["copy", "assign"]), i, j)); running[j] = True; continue
+            r = self.rnd.random()
             if r < self.restart:
-                L.append("stop 0 %s -" % self.gv()); running = False
+                L.append("stop %d %s -" % (i, self.gv())); running[i] = False
             elif r < self.restart + self.enq:
-                L.append("enq 0 %s %d" % (self.rnd.choice(self.d.evnames), self.newp()))
+                L.append("enq %d %s %d" % (i, self.rnd.choice(self.d.evnames), self.newp()))
             elif r < self.restart + self.enq + self.drain:
-                L.append("%s 0 %s %s" % (self.rnd.choice(["drain", "drain1"]), self.gv(), self.plan()))
+                L.append("%s %d %s %s" % (self.rnd.choice(["drain", "drain1"]), i, self.gv(), self.plan()))
             else:
-                L.append("pe 0 %s %d %s %s" % (self.rnd.choice(self.d.evnames), self.newp(), self.gv(), self.plan()))
+                L.append("pe %d %s %d %s %s" % (i, self.rnd.choice(self.d.evnames), self.newp(), self.gv(), self.plan()))
         return L
 
 def gen_scripts(d, seed, nexec, **kw):
@@ -145,41 +151,45 @@ class Validator:
         if d.name not in self.defs:
             open(os.path.join(self.dir, "Def_%s.tla" % d.name), "w").write(gen.emit_tla(d))
             self.defs.add(d.name)
-    def trace_module(self, d, cfg, ninst=1):
-        key = (d.name, cfg, ninst)
+    def trace_module(self, d, cfg, ninst=1, invs=()):
+        key = (d.name, cfg, ninst, tuple(invs))
         if key not in self.mods:
             self.ensure_def(d)
-            self.mods[key] = tlc.write_mc(self.dir, d.name, cfg, "trace", self.vars, ninst=ninst, name="TR_%s_%s_%d" % (d.name, cfg, ninst))
+            tag = hashlib.md5(",".join(invs).encode()).hexdigest()[:6] if invs else "x"
+            self.mods[key] = tlc.write_mc(self.dir, d.name, cfg, "trace", self.vars, ninst=ninst, trace_invs=invs,
+                                          name="TR_%s_%s_%d_%s" % (d.name, cfg, ninst, tag))
         return self.mods[key]
-    def validate(self, d, cfg, trace_path, ninst=1, timeout=900):
-        name = self.trace_module(d, cfg, ninst)
+    def validate(self, d, cfg, trace_path, ninst=1, timeout=900, invs=()):
+        name = self.trace_module(d, cfg, ninst, invs)
         rc, out, t = tlc.run_tlc(self.dir, name, trace=os.path.abspath(trace_path), workers=1, timeout=timeout)
         st = tlc.parse_stats(out)
         if "maxl" not in st:
             raise ToolError("TLC did not report acceptance register for %s (rc=%d):\n%s" % (trace_path, rc, out[-3000:]))
-        st["accepted"] = st["maxl"] == st["nl"] + 1
+        st["accepted"] = st["maxl"] == st["nl"] + 1 and st.get("pviol", 0) == 0
         st["rc"] = rc; st["secs"] = t; st["out"] = out
         return st
 
-def first_divergence(v, d, cfg, binary, scripts, trace_path, ninst=1):
+def first_divergence(v, d, cfg, binary, scripts, trace_path, ninst=1, invs=()):
     """validate the concatenated executions; on rejection isolate the failing execution and re-validate it alone.
        returns None if accepted, else dict(script, trace_lines, last_matched, exec_index)"""
     lines = [l for ex in scripts for l in ex]
     rc, err = run_driver(binary, lines, trace_path)
     if rc != 0:
         raise ToolError("driver %s exited with %d: %s" % (binary, rc, err[-500:]))
-    st = v.validate(d, cfg, trace_path, ninst)
+    st = v.validate(d, cfg, trace_path, ninst, invs=invs)
     if st["accepted"]:
         return None, st
     spans, n = split_executions(trace_path)
-    maxl = st["maxl"]
+    maxl = st["maxl"] if st["maxl"] != st["nl"] + 1 else st["pviol"]
+    if st.get("pviol", 0) and st["pviol"] < maxl: maxl = st["pviol"]
     idx = 0
     for k, (s, e) in enumerate(spans):
-        if s <= maxl <= e + 1: idx = k
+        if s < maxl <= e + 1: idx = k        # maxl on a reset line: the execution before it did not terminate in the model
     # re-run the single execution
     single = trace_path + ".single"
     rc, err = run_driver(binary, scripts[idx], single)
-    st1 = v.validate(d, cfg, single, ninst)
+    st1 = v.validate(d, cfg, single, ninst, invs=invs)
     tl = open(single).read().splitlines()
-    return {"exec_index": idx, "script": scripts[idx], "trace": tl, "last_matched": st1["maxl"] - 1,
-            "repeats": not st1["accepted"], "nl": st1["nl"]}, st
+    kind = "rejected" if st1["maxl"] != st1["nl"] + 1 else ("property" if st1.get("pviol", 0) else "none")
+    return {"exec_index": idx, "script": scripts[idx], "trace": tl, "last_matched": st1["maxl"] - 1, "prop_line": st1.get("pviol", 0),
+            "kind": kind, "repeats": not st1["accepted"], "nl": st1["nl"]}, st
